@@ -17,7 +17,7 @@ ListOps ==
     \cup [op : {"remove", "read", "set", "opset", "opsub", "seteq"}, x : LVars, i : IdxKinds]
     \cup [op : {"join", "eq", "joinalias"}, x : {"a", "b"}, y : LVars] \cup [op : {"join", "eq"}, x : {"c"}, y : LVars]
     \cup [op : {"alias", "clone"}, y : {"a", "b"}]          \* c = y   /   c = y.clone()
-    \cup [op : {"litfrom", "mapfrom", "eqboxed"}, x : {"a"}]  \* c = [a[0], a[1]] / c = [0].map(fn(i) { return a[i] }): elements copied, not aliased
+    \cup [op : {"litfrom", "mapfrom", "eqboxed", "filterview"}, x : {"a"}]  \* c = [a[0], a[1]] / c = [0].map(fn(i) { return a[i] }): elements copied, not aliased
 
 MVars == {"m", "e", "n"}
 Keys == {"k1", "k2", "k3"}
@@ -108,6 +108,10 @@ ListStmts(o, n) ==
                                     Print(Bin("==", V("bxl"), V("pll"))), Print(Bin("!=", V("bxl"), V("pll"))),
                                     Print(MCall(V("pll"), "index_of", <<MCall(V("hs"), "index_of", <<I(2)>>)>>))>>
                              ELSE <<Print(Bin("==", V("a"), V("a")))>>
+      \* the predicate answers with a bool it reads out of a list element / an object-like slot (what comes back is a view)
+      [] o.op = "filterview" -> <<LetT("keepf", "[bool...]", List(<<B(TRUE), B(FALSE), B(TRUE)>>)), LetT("posf", "[int...]", List(<<I(0), I(1), I(2)>>)),
+                                  Print(MCall(V("posf"), "filter", <<Fn("kv", <<P("q", "int")>>, "bool", <<Ret(Idx(V("keepf"), V("q")))>>)>>)),
+                                  Print(MCall(V("posf"), "filter", <<Fn("kn", <<P("q", "int")>>, "bool", <<Ret(Not(Idx(V("keepf"), V("q"))))>>)>>))>>
       [] o.op = "litfrom" -> <<Let("z0", I(0)), Let("z1", I(1)),
                                LetT("c", LTy, List(<<Idx(V("a"), V("z0")), Idx(V("a"), V("z1"))>>))>>
 
